@@ -137,7 +137,12 @@ def gen_string(rng, classes=None):
         return None
     pools = [STR_PLAIN, STR_PUNCT, STR_LOOKALIKE, STR_FRAGMENT, STR_UNI]
     r = rng.random()
-    if r < 0.75:
+    if r < 0.02:
+        # long strings: a message may carry up to ~4 kB on the wire, the printed line is longer than that
+        n = rng.choice([255, 256, 1023, 1024, 4000, 4050, 4083, 4090, 4096, 5000, 8191, 8192, 16000])
+        unit = rng.choice(['x', 'ab ', 'f(x), ', 'é', '[1.0] '])
+        s = (unit * (n // len(unit) + 1))[:n]
+    elif r < 0.75:
         s = rng.choice(rng.choice(pools))
     elif r < 0.9:
         s = ''.join(rng.choice(rng.choice(pools)) for _ in range(rng.randint(2, 4)))
@@ -205,8 +210,17 @@ def gen_arg(rng, k):
     if k == 'n':
         return {'k': 'n', 'v': gen_id(rng), 'iface': None if rng.random() < 0.25 else gen_word(rng, IFACES)}
     if k == 'a':
-        n = rng.choice([0, 0, 1, 2, 3, 5, 8, 40]) if rng.random() < 0.8 else rng.randint(0, 40)
-        return {'k': 'a', 'data': [gen_int(rng, True) for _ in range(n)]}
+        r = rng.random()
+        if r < 0.8:
+            n = rng.choice([0, 0, 1, 2, 3, 5, 8, 40])
+        elif r < 0.97:
+            n = rng.randint(0, 40)
+        else:
+            n = rng.choice([255, 256, 257, 258, 511, 512, 513, 1000, 1023, 1024])    # a 4 kB message has room for ~1000 ints
+        a = {'k': 'a', 'data': [gen_int(rng, True) for _ in range(n)]}
+        if n == 0 and rng.random() < 0.5:
+            a['null_data'] = True           # what wl_array_init() leaves behind: size 0, data NULL
+        return a
     if k == 'h':
         return {'k': 'h', 'v': rng.choice([0, 1, 2, 3, 17, 1023, 2**31 - 1]) if rng.random() < 0.7 else rng.randint(0, 2**31 - 1)}
     raise ValueError(k)
